@@ -338,7 +338,7 @@ def write_evidence(prop_id, ev):
 # ------------------------------------------------------------------ the generic differential check
 
 def differential(prop_id, cases, monitor=None, finding_class=None, nontrivial=None,
-                 deeper=None, impl_env=None, max_reports=3, shrinkable=True, canon=None):
+                 deeper=None, impl_env=None, max_reports=3, shrinkable=True, canon=None, py_monitor=None):
     """cases: list of (protocol line, label).  Runs the implementation (Rust harness on /repo)
     and the extracted model on every case, compares line by line and applies the verdict rules
     of DESIGN.md section 2.5.  monitor(line, impl_obs) -> protocol line for the extracted property
@@ -362,7 +362,13 @@ def differential(prop_id, cases, monitor=None, finding_class=None, nontrivial=No
     cz = canon if canon is not None else (lambda l, o: o)
     disagree = [i for i in range(len(lines)) if cz(lines[i], impl[i]) != model[i]]
     mon = {}
-    if monitor is not None:
+    if py_monitor is not None:
+        # a property check simple enough to be stated directly on the observation (equalities
+        # between its parts); it plays the role of the extracted monitor
+        for i in range(len(lines)):
+            mon[i] = py_monitor(lines[i], impl[i])
+        failing = [i for i in range(len(lines)) if not mon[i].startswith("ok")]
+    elif monitor is not None:
         mlines = [monitor(lines[i], impl[i]) for i in range(len(lines))]
         mres = run_model(mlines)
         for i, r in enumerate(mres):
@@ -384,6 +390,8 @@ def differential(prop_id, cases, monitor=None, finding_class=None, nontrivial=No
     def fails_batch(cands):
         im = run_impl(cands, env=impl_env)
         mo = run_model(cands)
+        if py_monitor is not None:
+            return [(not py_monitor(c, o).startswith("ok")) and not invalid(o) and not invalid(m) for c, o, m in zip(cands, im, mo)]
         if monitor is not None:
             mr = run_model([monitor(c, o) for c, o in zip(cands, im)])
             return [(not r.startswith("ok")) and not invalid(r) and not invalid(o) and not invalid(m) for r, o, m in zip(mr, im, mo)]
@@ -419,7 +427,9 @@ def differential(prop_id, cases, monitor=None, finding_class=None, nontrivial=No
         mo = run_model([small])[0]
         payload = {"property": prop_id, "case": small, "original_case": lines[i],
                    "impl_observation": im, "model_observation": mo, "label": labels[i]}
-        if monitor is not None:
+        if py_monitor is not None:
+            payload["monitor"] = py_monitor(small, im)
+        elif monitor is not None:
             payload["monitor"] = run_model([monitor(small, im)])[0]
         path = write_replay(prop_id, payload)
         print("VIOLATION property=%s replay=%s" % (prop_id, os.path.relpath(path, VERIF)))
@@ -465,7 +475,7 @@ def differential(prop_id, cases, monitor=None, finding_class=None, nontrivial=No
         "generator_distribution": dict(Counter(labels)),
         "known_finding_hits": dict(known_hits),
     }
-    if monitor is not None:
+    if mon:
         stats["monitor_verdicts"] = dict(Counter(m.split(" ")[0] for m in mon.values()))
     return violations, stats
 
